@@ -247,6 +247,12 @@ static inline void myth_tls_key_allocator_init(myth_tls_key_allocator_t * s) {
     s->keys[i].next = &s->keys[i + 1];
   }
   s->keys[myth_tls_n_keys - 1].next = 0;
+  /* the table is static and re-initialised by every myth_init: keys of
+     a previous lifetime that were never deleted must not leave their
+     destructors behind */
+  for (i = 0; i < myth_tls_n_keys; i++) {
+    s->keys[i].destructor = 0;
+  }
   s->free = &s->keys[0];
   myth_spin_init_body(s->lock);
 }
